@@ -13,7 +13,7 @@ from mc.core.util import call
 
 ID = "C09"
 LEVEL = "model_checking"
-REQUIRED_OUTCOMES = ["add:accepted", "add:refused", "add:accepted-pre-1.1-collision", "add:accepted-equal-checksums",
+REQUIRED_OUTCOMES = ["add:accepted", "add:refused", "doc-src:rejected", "doc-src:accepted-1.0", "add:accepted-pre-1.1-collision", "add:accepted-equal-checksums",
                      "reload:rejected", "reload:ok", "doc:accepted-1.0", "doc:rejected", "identify:agree"]
 
 X = {"sha256": "a" * 64}
@@ -209,9 +209,19 @@ def doc_of(placed):
                         "images": cells}}
 
 
-def eval_doc(placed, version):
+def eval_doc(placed, version, src=None):
+    """src: index (into the sorted placements) of the image that the document files under the legacy 'src' arch of its variant
+    (formats <= 1.1: the reader re-files it under every binary arch of that variant)"""
     import productmd.images as pi
-    doc = doc_of([tuple(p) for p in placed])
+    placed = sorted(tuple(p) for p in placed)
+    doc = doc_of([p for n, p in enumerate(placed) if n != src])
+    if src is not None:
+        v, _, i = placed[src]
+        d = copy.deepcopy(POOL[i])
+        if not d["unified"]:
+            d.pop("unified")
+            d.pop("additional_variants")
+        doc["payload"]["images"].setdefault(v, {}).setdefault("src", []).append(d)
     doc["header"]["version"] = version
     r = call(pi.Images().loads, json.dumps(doc))
     return {"load": "ok" if r[0] == "ok" else r[1]}
@@ -387,6 +397,23 @@ def run_unit(unit, acc):
                                   % (ver, placed, coll, o["load"]))
                 elif coll:
                     acc.outcome("doc:accepted-1.0" if ver == "1.0" else "doc:rejected")
+            # the legacy layout: one of the images sits under the 'src' arch of its variant and is re-filed by the reader under
+            # the variant's binary arches - the uniqueness rule holds for what the manifest ends up holding
+            for j, (v, a, i) in enumerate(placed):
+                binary = {a2 for n, (v2, a2, _) in enumerate(placed) if v2 == v and n != j}
+                if not binary:
+                    continue
+                refiled = {p for n, p in enumerate(placed) if n != j} | {(v, a2, i) for a2 in binary}
+                coll2 = m_has_collision(refiled)
+                for ver in ("1.0", "1.1"):
+                    o = eval_doc(placed, ver, j)
+                    acc.ev()
+                    if (o["load"] == "ok") != ((not coll2) or ver == "1.0"):
+                        acc.violation("document-src", {"kind": "doc", "placed": placed, "version": ver, "src": j}, o,
+                                      "document version %s with placements %s, #%d of them under the legacy 'src' arch (colliding pair after "
+                                      "re-filing: %s): load -> %s" % (ver, placed, j, coll2, o["load"]))
+                    elif coll2:
+                        acc.outcome("doc-src:accepted-1.0" if ver == "1.0" else "doc-src:rejected")
         if len(hist) == 2:
             acc.sample({"header": header, "history": hist + [["add", "Server", "x86_64", 2]]}, limit=2)
 
@@ -395,7 +422,7 @@ def replay(case):
     if case["kind"] == "hist":
         return eval_hist(case["header"], case["hist"])
     if case["kind"] == "doc":
-        return eval_doc(case["placed"], case["version"])
+        return eval_doc(case["placed"], case["version"], case.get("src"))
     if case["kind"] == "docpath":
         return eval_doc_same_path(case["first"], case["second"], case["version"])
     return eval_identify(case["i"], case["drop"], case.get("then"))
